@@ -92,6 +92,19 @@ class Closure:
 _NOT_EVALUATED = object()
 
 
+class LazyGen:
+    """A generator expression that has not been consumed yet.  As in Python, the first iterable was evaluated
+    when the expression was created; everything else is evaluated when it is consumed, in the enclosing
+    environment AS IT IS THEN (late binding of the enclosing function's variables)."""
+
+    def __init__(self, node, first_iter, env, func):
+        self.node, self.first_iter, self.env, self.func = node, first_iter, env, func
+        self.done = None
+
+    def __repr__(self):
+        return "<generator>"
+
+
 class DefClosure:
     """A nested `def` together with the (live) environment of the enclosing call."""
 
@@ -183,6 +196,7 @@ class Interp:
         self.resolve_module_constants = inline_module_functions
         self._resolving = set()
         self._class_consts = {}
+        self.lazy_generators = False      # models that care about late binding switch this on
         self.yield_hook = None
         self.await_hook = None
         # a self-call that is neither hooked nor inlined is a silent no-op unless strict
@@ -292,7 +306,7 @@ class Interp:
             else:
                 self.exec_block(st.orelse, env, f)
         elif isinstance(st, ast.For):
-            it = self.eval(st.iter, env, f)
+            it = self.force(self.eval(st.iter, env, f))
             if isinstance(it, dict):
                 it = list(it.keys())
             if isinstance(it, Obj) and "__iter__" in it.attrs:
@@ -383,8 +397,15 @@ class Interp:
                 self.exec_block(st.finalbody, env, f)
                 raise
             self.exec_block(st.finalbody, env, f)
-        elif isinstance(st, (ast.FunctionDef,)) and not st.decorator_list and not st.args.kwarg:
-            env[st.name] = DefClosure(st, env, f)
+        elif isinstance(st, (ast.FunctionDef, ast.AsyncFunctionDef)):
+            clo = DefClosure(st, env, f)
+            for dec in reversed(st.decorator_list):
+                dv = self.eval(dec, env, f)
+                if isinstance(dv, PyFunc):
+                    clo = dv.fn(clo)
+                else:
+                    raise Unsupported("decorator `%s` of the nested function %s" % (norm(dec), st.name))
+            env[st.name] = clo
         elif isinstance(st, ast.Delete):
             for t in st.targets:
                 if isinstance(t, ast.Name):
@@ -579,7 +600,18 @@ class Interp:
             return TOP
         raise Unsupported("comparison %s" % type(op).__name__)
 
-    def eval(self, e, env, f):
+    def force(self, v):
+        """Consume a pending generator expression (now, with the enclosing variables as they are now)."""
+        if isinstance(v, LazyGen):
+            if v.done is None:
+                r = self.eval(v.node, v.env, v.func, first_iter=v.first_iter)
+                v.done = r if r is not TOP else TOP
+                got, v.done = v.done, []          # a generator can be consumed once
+                return got
+            return v.done
+        return v
+
+    def eval(self, e, env, f, first_iter=_NOT_EVALUATED):
         self.steps += 1
         if isinstance(e, ast.Constant):
             return e.value
@@ -631,7 +663,18 @@ class Interp:
                 return base.kwargs.get(e.attr, TOP)
             return TOP
         if isinstance(e, (ast.Tuple, ast.List)):
-            vals = [self.eval(x, env, f) for x in e.elts]
+            vals = []
+            for x in e.elts:
+                if isinstance(x, ast.Starred):
+                    sv = self.force(self.eval(x.value, env, f))
+                    if isinstance(sv, (list, tuple)):
+                        vals.extend(sv)
+                    elif isinstance(sv, dict):
+                        vals.extend(sv.keys())          # *mapping unpacks the KEYS
+                    else:
+                        vals.append(TOP)
+                else:
+                    vals.append(self.eval(x, env, f))
             return tuple(vals) if isinstance(e, ast.Tuple) else list(vals)
         if isinstance(e, ast.Dict):
             d = {}
@@ -648,7 +691,19 @@ class Interp:
                 d[kk] = self.eval(v, env, f)
             return d
         if isinstance(e, ast.JoinedStr):
-            return "<formatted string>"
+            parts = []
+            for v in e.values:
+                if isinstance(v, ast.Constant):
+                    parts.append(str(v.value))
+                elif isinstance(v, ast.FormattedValue) and v.format_spec is None and v.conversion == -1:
+                    x = self.eval(v.value, env, f)
+                    if isinstance(x, (str, int)) and not isinstance(x, bool):
+                        parts.append(str(x))
+                    else:
+                        return "<formatted string>"
+                else:
+                    return "<formatted string>"
+            return "".join(parts)
         if isinstance(e, ast.UnaryOp) and isinstance(e.op, ast.USub):
             v = self.eval(e.operand, env, f)
             return -v if isinstance(v, (int, float)) and not isinstance(v, bool) else TOP
@@ -722,6 +777,8 @@ class Interp:
             return self.eval_call(e, env, f)
         if isinstance(e, ast.Lambda):
             return Closure(e, env, f)
+        if isinstance(e, ast.GeneratorExp) and self.lazy_generators and first_iter is _NOT_EVALUATED:
+            return LazyGen(e, self.force(self.eval(e.generators[0].iter, env, f)), env, f)
         if isinstance(e, (ast.ListComp, ast.GeneratorExp)):
             out = []
             ok = [True]
@@ -733,7 +790,7 @@ class Interp:
                     out.append(self.eval(e.elt, sub, f))
                     return
                 g = e.generators[i]
-                it = self.eval(g.iter, sub, f)
+                it = first_iter if (i == 0 and first_iter is not _NOT_EVALUATED) else self.force(self.eval(g.iter, sub, f))
                 if isinstance(it, dict):
                     it = list(it)
                 if isinstance(it, Obj) and "__iter__" in it.attrs:
@@ -839,6 +896,8 @@ class Interp:
         if isinstance(fn, ast.Name):
             n = fn.id
             bound = env.get(n)
+            if bound is None and n in ("list", "tuple", "set", "dict", "any", "all", "sorted", "enumerate", "zip", "len", "sum", "frozenset", "reversed", "map", "min", "max"):
+                args = [self.force(a) for a in args]
             if isinstance(bound, Closure) and not kwargs and len(bound.node.args.args) == len(args):
                 sub = dict(bound.env)
                 for a_, v_ in zip(bound.node.args.args, args):
@@ -1060,6 +1119,10 @@ class Interp:
         if c.node.args.vararg is not None:
             sub[c.node.args.vararg.arg] = tuple(args[len(names):])
             args = list(args[:len(names)])
+        if c.node.args.kwarg is not None:
+            extra = {k: v for k, v in kwargs.items() if k not in names}
+            sub[c.node.args.kwarg.arg] = extra
+            kwargs = {k: v for k, v in kwargs.items() if k in names}
         if len(args) > len(names):
             raise Unsupported("call of nested function %s with too many arguments" % c.node.name)
         for nme, v in zip(names, args):
